@@ -20,6 +20,9 @@ class Luhn10(Validator):
 def luhn10_check(number):
     """Return True if the number passes the Luhn checksum algorithm."""
 
+    if number < 0:
+        return False
+
     sum = 0
     while number:
         r = number % 100
